@@ -82,6 +82,19 @@ func (r *Run) usable(c *pipeline.Case) bool {
 			map[string]interface{}{"tags": c.Tags, "compiler": tail(c.BuildErr, 12)})
 		return false
 	}
+	if c.Spec != nil {
+		have := map[string]bool{}
+		for _, t := range c.GeneratedTypes() {
+			have[t] = true
+		}
+		for _, root := range c.Spec.Roots {
+			if !have[root.Name] {
+				r.violate("case-unavailable/type-not-generated", c.Name, root.Name, "-", "the generated file has no functions for the selected type "+root.Name+" of a supported descriptor",
+					map[string]interface{}{"tags": c.Tags, "stderr": tail(string(c.Plugin.Stderr), 12)})
+				return false
+			}
+		}
+	}
 	return true
 }
 
